@@ -46,6 +46,8 @@ func extractMain(args []string) int {
 		return extractCrd()
 	case "Defaulters":
 		return extractDefaulters()
+	case "Schema":
+		return extractSchema()
 	}
 	fmt.Fprintln(os.Stderr, "extract: unknown fact file", args[0])
 	return 2
